@@ -122,14 +122,37 @@ void Double_2_ieee10(Double inp, Byte* pDest, Boolean NeedsBig) {
     Sign     = (Buffer[7] & 0x80);
     Exponent = (Buffer[6] >> 4) + (((Word)Buffer[7] & 0x7f) << 4);
     Denormal = (Exponent == 0);
+    Buffer[6] &= 0x0f;
     if (Exponent == 2047) {
         Exponent = 32767;
-    } else {
-        Exponent += (16383 - 1023);
-    }
-    Buffer[6] &= 0x0f;
-    if (!Denormal) {
         Buffer[6] |= 0x10;
+    } else if (!Denormal) {
+        Exponent += (16383 - 1023);
+        Buffer[6] |= 0x10;
+    } else {
+        /* A denormal double is 0.f * 2^-1022 and is a normal number in extended
+           precision: shift the fraction left until the leading one reaches the
+           integer bit and count the exponent down accordingly.  Zero keeps its
+           traditional representation (zero mantissa, exponent of 2^-1023). */
+
+        Boolean Zero = True;
+
+        for (z = 0; z < 7; z++) {
+            if (Buffer[z]) {
+                Zero = False;
+            }
+        }
+        Exponent = 16383 - 1023;
+        if (!Zero) {
+            Exponent++;
+            while (!(Buffer[6] & 0x10)) {
+                for (z = 6; z > 0; z--) {
+                    Buffer[z] = ((Buffer[z] << 1) | (Buffer[z - 1] >> 7)) & 0xff;
+                }
+                Buffer[0] = (Buffer[0] << 1) & 0xff;
+                Exponent--;
+            }
+        }
     }
     for (z = 7; z >= 2; z--) {
         pDest[z] = ((Buffer[z - 1] & 0x1f) << 3) | ((Buffer[z - 2] & 0xe0) >> 5);
